@@ -18,11 +18,15 @@ LEVEL = "translation_validation"
 RULE = ("Programs: 1-6 (thorough 1-8) reactions over 1-6 (1-8) substances in a permuted substance order, built by "
         "construction (every substance occurs, no duplicate stoichiometry, net effect non-zero), with catalysts, inactive "
         "coefficients, zeroth-order steps; rate laws mass-action / Arrhenius / Eyring with int, Fraction or float "
-        "constants.  Each program is built as: inline (include_params=True), unique (MassAction([k], unique_keys), "
+        "constants, about one in nine rate constants / pre-exponential factors exactly zero (0, Fraction(0), 0.0: a "
+        "switched-off reaction at any position).  Each program is built as: inline (include_params=True), unique (MassAction([k], unique_keys), "
         "include_params=False, bound through extra['unique']), named ('k_j'), passive/active substitutions "
         "(temperature value, RampedTemp with/without unique keys, a rate key replaced by a number or by a polynomial in "
         "temperature), cstr=True / explicit feed map, and _create_odesys (plain; with cstr_fr_fc and "
-        "parameter_expressions).  Non-trivial = at least two reactions share a substance (every program has free "
+        "parameter_expressions; both with the optional symbol arguments left out or given by the caller: "
+        "substance_symbols as a plain dict in a permuted or in substance order or as an OrderedDict, with the caller's "
+        "own symbol names and assumptions, parameter_symbols as an OrderedDict in its own key order, time_symbol).  "
+        "Non-trivial = at least two reactions share a substance (every program has free "
         "parameters in the unique/named configurations); distinct by case digest.")
 ASSUMPTIONS = [
     "reference semantics (vlib/gen_c04.py + ref_eval here): rate_j = k_j(T) * prod c^reac (active reactants only), "
@@ -31,6 +35,9 @@ ASSUMPTIONS = [
     "sympy is trusted to expand a polynomial into monomials (Poly.terms) and to evaluate an expression at rational "
     "points to 45 digits; mpmath (60 digits) evaluates the reference",
     "pyodesys SymbolicSys is trusted to lambdify the expressions it was given (f_cb evaluates odesys.exprs)",
+    "symbols handed to _create_odesys by the caller are identified by the key they were given for (dependent variable i "
+    "must be the symbol given for substance i, parameter named k the symbol given for key k, the independent variable "
+    "the given time symbol); their names carry no meaning",
 ]
 
 TOL_FLOAT_POLY = 1e-12    # float constants: a handful of roundings (<= ~10 ulp = 2e-15) per coefficient; mutants are O(1)
